@@ -79,4 +79,26 @@ theorem cover_eq_spec {m : PMap w V} (h : m.TreeWF) (q : Pfx w) : m.cover q = Sp
 theorem getSpm_eq_spec {m : PMap w V} (h : m.TreeWF) (q : Pfx w) : m.getSpm q = Spec.spm m.entries q :=
   PMap.getSpm_refines h q
 
+/-! ### one entry per length -/
+
+theorem length_le_of_strictMono_bounded {α : Type} (f : α → Nat) (n : Nat) :
+    ∀ (l : List α) (k : Nat), l.Pairwise (fun a b => f a < f b) → (∀ x ∈ l, k ≤ f x ∧ f x ≤ n) →
+      l.length ≤ n + 1 - k
+  | [], k, _, _ => by simp
+  | x :: xs, k, hp, hb => by
+    rw [List.pairwise_cons] at hp
+    have hx := hb x (List.mem_cons_self)
+    have ih := length_le_of_strictMono_bounded f n xs (f x + 1) hp.2 (fun y hy =>
+      ⟨hp.1 y hy, (hb y (List.mem_cons_of_mem _ hy)).2⟩)
+    simp only [List.length_cons]; omega
+
+/-- `cover(q)` yields at most one entry per prefix length `0 … q.len` -/
+theorem cover_length_le {m : PMap w V} (h : m.TreeWF) (q : Pfx w) : (m.cover q).length ≤ q.len + 1 := by
+  have := length_le_of_strictMono_bounded (fun e : Pfx w × V => e.1.len) q.len (m.cover q) 0 (cover_sorted h q)
+    (fun e he => ⟨Nat.zero_le _, by
+      have hc := ((mem_cover_iff h q e).1 he).2
+      have := hc.length_le
+      simpa [net_length] using this⟩)
+  simpa using this
+
 end PT.C09
